@@ -37,6 +37,19 @@ def unesc(s):
     return ''.join(out)
 
 
+def _fixed_stack():
+    """the same native stack for every driver wherever the check runs (recursion depth findings must not depend on the caller's ulimit)"""
+    try:
+        import resource
+        soft, hard = resource.getrlimit(resource.RLIMIT_STACK)
+        want = 8 << 20
+        if hard != resource.RLIM_INFINITY and hard < want:
+            want = hard
+        resource.setrlimit(resource.RLIMIT_STACK, (want, hard))
+    except Exception:
+        pass
+
+
 class WorkerDied(Exception):
     def __init__(self, rc, stderr_tail):
         Exception.__init__(self, 'driver died rc=%s' % rc)
@@ -65,7 +78,7 @@ class Worker:
         self.close()
         self.errf = open(self.stderr_path, 'wb')
         self.p = subprocess.Popen([self.exe] + self.args, stdin=subprocess.PIPE, stdout=subprocess.PIPE,
-                                  stderr=self.errf, env=self.env, bufsize=0)
+                                  stderr=self.errf, env=self.env, bufsize=0, preexec_fn=_fixed_stack)
         self.rbuf = b''
 
     def close(self):
